@@ -59,7 +59,8 @@ Definition cl_attrs (k : regkind) (falsy exitname : bool) : avec :=
   end.
 
 (* ------------------------------------------------------------------ the classifier *)
-Inductive meth := MEnter | MEnterA | MPush | MPushA | MCallback | MACallback.
+Inductive meth := MEnter | MEnterA | MPush | MPushA | MCallback | MACallback
+                | MOtherMeth (* observation only: any other text *).
 Inductive argk :=
   | AReprSelf     (* repr(manager) *)
   | AFuncname     (* format_funcname(callback) *)
@@ -112,8 +113,11 @@ Inductive cout :=
 with fout := FOut (code : nat) (cs : list cout) | FFuel.
 
 (* ------------------------------------------------------------------ the unfolding *)
-Fixpoint mapi {A B} (f : nat -> A -> B) (n : nat) (l : list A) : list B :=
-  match l with [] => [] | x :: r => f n x :: mapi f (S n) r end.
+Section Mapi.
+  Context {A B : Type} (f : nat -> A -> B).
+  Fixpoint mapi (n : nat) (l : list A) : list B :=
+    match l with [] => [] | x :: r => f n x :: mapi (S n) r end.
+End Mapi.
 
 Definition has_desc (m : mgr) : bool := match m with MGen _ => true | _ => false end.
 
@@ -178,7 +182,7 @@ Definition avec_eqb (a b : avec) : bool :=
   Bool.eqb (a_truthy a) (a_truthy b) && crel_eqb (a_rel a) (a_rel b).
 Definition meth_eqb (a b : meth) : bool :=
   match a, b with MEnter, MEnter | MEnterA, MEnterA | MPush, MPush | MPushA, MPushA
-                | MCallback, MCallback | MACallback, MACallback => true | _, _ => false end.
+                | MCallback, MCallback | MACallback, MACallback | MOtherMeth, MOtherMeth => true | _, _ => false end.
 Definition argk_eqb (a b : argk) : bool :=
   match a, b with AReprSelf, AReprSelf | AFuncname, AFuncname | ACallArgs, ACallArgs
                 | AChildDesc, AChildDesc | AOther, AOther => true | _, _ => false end.
